@@ -624,3 +624,107 @@ Qed.
 Lemma cpuset_from_nodeset_locality nl nodeset j :
   mem j (cpuset_from_nodeset nl nodeset) = existsb (fun o => mem (o_os o) nodeset && mem j (dcs o)) nl.
 Proof. unfold cpuset_from_nodeset. now rewrite fold_union_mem, mem_empty. Qed.
+
+(* ================================================================== *)
+(* hwloc_get_common_ancestor_obj on normal objects                     *)
+
+(* x is o or an ancestor of o, through parent pointers *)
+Inductive anc (d : dump) : dobj -> dobj -> Prop :=
+| anc_self o : anc d o o
+| anc_up x o p : deref d (o_parent o) = Some p -> anc d x p -> anc d x o.
+
+(* facts wf_check establishes ("ids-not-sequential", "child-parent", "child-depth",
+   "parent-pointer", "root-level") about the objects of non-negative depth *)
+Record parents_ok (d : dump) : Prop := {
+  po_id : forall o, In o (t_objs d) -> get d (o_id o) = Some o;
+  po_in : forall o p, In o (t_objs d) -> (0 <= o_depth o)%Z -> deref d (o_parent o) = Some p ->
+                      In p (t_objs d) /\ (0 <= o_depth p < o_depth o)%Z;
+  po_par : forall o, In o (t_objs d) -> (0 < o_depth o)%Z -> deref d (o_parent o) <> None;
+  po_root : forall o o', In o (t_objs d) -> In o' (t_objs d) -> o_depth o = 0%Z -> o_depth o' = 0%Z -> o_id o = o_id o'
+}.
+
+Lemma anc_depth d : parents_ok d -> forall x o, anc d x o -> In o (t_objs d) -> (0 <= o_depth o)%Z ->
+  In x (t_objs d) /\ (0 <= o_depth x <= o_depth o)%Z /\ (o_depth x = o_depth o -> x = o).
+Proof.
+  intros P x o H. induction H as [o|x o p Hp Ha IH]; intros Hi Hd.
+  - split; [exact Hi|]. split; [lia|reflexivity].
+  - destruct (po_in d P o p Hi Hd Hp) as [Hpi Hpd]. destruct (IH Hpi ltac:(lia)) as (I1 & I2 & _).
+    split; [exact I1|]. split; [lia|]. intros E. lia.
+Qed.
+
+Lemma same_id d : parents_ok d -> forall a b, In a (t_objs d) -> In b (t_objs d) -> o_id a = o_id b -> a = b.
+Proof.
+  intros P a b Ha Hb E. pose proof (po_id d P a Ha) as G1. pose proof (po_id d P b Hb) as G2.
+  rewrite E in G1. congruence.
+Qed.
+
+Lemma anc_inv d x o : anc d x o -> x = o \/ exists p, deref d (o_parent o) = Some p /\ anc d x p.
+Proof. intros H. inversion H; subst; eauto. Qed.
+
+(* termination with fuel = depth a + depth b + 1, and the answer is the deepest common ancestor:
+   an ancestor-or-self of both, of which every common ancestor-or-self is an ancestor-or-self *)
+Lemma common_ancestor_deepest_l d : parents_ok d -> forall fuel a b,
+  In a (t_objs d) -> In b (t_objs d) -> (0 <= o_depth a)%Z -> (0 <= o_depth b)%Z ->
+  (Z.to_nat (o_depth a) + Z.to_nat (o_depth b) < fuel)%nat ->
+  exists r, common_ancestor d fuel a b = CA_obj (o_id r) /\ anc d r a /\ anc d r b /\
+            forall x, anc d x a -> anc d x b -> anc d x r.
+Proof.
+  intros P. induction fuel as [|f IH]; intros a b Ha Hb Da Db Hf; [lia|].
+  cbn [common_ancestor].
+  destruct (N.eqb_spec (o_id a) (o_id b)) as [E|NE].
+  - pose proof (same_id d P a b Ha Hb E) as ->. exists b. repeat split; try constructor. auto.
+  - destruct (Z.ltb_spec (o_depth b) (o_depth a)) as [L1|L1].
+    + destruct (deref d (o_parent a)) as [pa|] eqn:Epa; [|exfalso; apply (po_par d P a Ha ltac:(lia)); exact Epa].
+      destruct (po_in d P a pa Ha Da Epa) as [Hpi Hpd].
+      destruct (IH pa b Hpi Hb ltac:(lia) Db ltac:(lia)) as (r & R1 & R2 & R3 & R4).
+      exists r. split; [exact R1|]. split; [eapply anc_up; eauto|]. split; [exact R3|].
+      intros x Xa Xb. apply R4; [|exact Xb]. apply anc_inv in Xa as [->|[p [Hp Xp]]].
+      * exfalso. destruct (anc_depth d P _ _ Xb Hb Db) as (_ & I2 & _). lia.
+      * rewrite Epa in Hp. now inversion Hp; subst.
+    + destruct (Z.ltb_spec (o_depth a) (o_depth b)) as [L2|L2].
+      * destruct (deref d (o_parent b)) as [pb|] eqn:Epb; [|exfalso; apply (po_par d P b Hb ltac:(lia)); exact Epb].
+        destruct (po_in d P b pb Hb Db Epb) as [Hpi Hpd].
+        destruct (IH a pb Ha Hpi Da ltac:(lia) ltac:(lia)) as (r & R1 & R2 & R3 & R4).
+        exists r. split; [exact R1|]. split; [exact R2|]. split; [eapply anc_up; eauto|].
+        intros x Xa Xb. apply R4; [exact Xa|]. apply anc_inv in Xb as [->|[p [Hp Xp]]].
+        -- exfalso. destruct (anc_depth d P _ _ Xa Ha Da) as (_ & I2 & _). lia.
+        -- rewrite Epb in Hp. now inversion Hp; subst.
+      * assert (Ed : o_depth a = o_depth b) by lia.
+        assert (Dpos : (0 < o_depth a)%Z).
+        { destruct (Z.eq_dec (o_depth a) 0) as [Z0|]; [|lia]. exfalso. apply NE. apply (po_root d P a b Ha Hb Z0). lia. }
+        destruct (deref d (o_parent a)) as [pa|] eqn:Epa; [|exfalso; apply (po_par d P a Ha Dpos); exact Epa].
+        destruct (deref d (o_parent b)) as [pb|] eqn:Epb; [|exfalso; apply (po_par d P b Hb ltac:(lia)); exact Epb].
+        destruct (po_in d P a pa Ha Da Epa) as [Hpia Hpda]. destruct (po_in d P b pb Hb Db Epb) as [Hpib Hpdb].
+        destruct (IH pa pb Hpia Hpib ltac:(lia) ltac:(lia) ltac:(lia)) as (r & R1 & R2 & R3 & R4).
+        exists r. split; [exact R1|]. split; [eapply anc_up; eauto|]. split; [eapply anc_up; eauto|].
+        intros x Xa Xb. apply R4.
+        -- apply anc_inv in Xa as [->|[p [Hp Xp]]].
+           ++ exfalso. destruct (anc_depth d P _ _ Xb Hb Db) as (_ & _ & I3). apply NE. now rewrite (I3 Ed).
+           ++ rewrite Epa in Hp. now inversion Hp; subst.
+        -- apply anc_inv in Xb as [->|[p [Hp Xp]]].
+           ++ exfalso. destruct (anc_depth d P _ _ Xa Ha Da) as (_ & _ & I3). apply NE. now rewrite (I3 (eq_sym Ed)).
+           ++ rewrite Epb in Hp. now inversion Hp; subst.
+Qed.
+
+(* hwloc_get_obj_with_same_locality between normal/memory types: what is returned has the requested
+   sets; NULL means no object of the (single) level of that type has them *)
+Lemma same_locality_sound_complete_l d src ty :
+  is_normal (o_type src) || is_memory (o_type src) = true -> is_normal ty || is_memory ty = true ->
+  match get_obj_with_same_locality d src ty with
+  | (Some o, e) => e = E_OK /\ In o (level_objs d (get_type_depth d (Z.of_N ty))) /\
+                   opt_bs_eqb (o_cs src) (o_cs o) = true /\ opt_bs_eqb (o_nds src) (o_nds o) = true
+  | (None, e) => e = E_NOENT /\
+                 (get_type_depth d (Z.of_N ty) = HWLOC_TYPE_DEPTH_UNKNOWN \/ get_type_depth d (Z.of_N ty) = HWLOC_TYPE_DEPTH_MULTIPLE \/
+                  forall o, In o (level_objs d (get_type_depth d (Z.of_N ty))) ->
+                            opt_bs_eqb (o_cs src) (o_cs o) && opt_bs_eqb (o_nds src) (o_nds o) = false)
+  end.
+Proof.
+  intros Hs Ht. unfold get_obj_with_same_locality. rewrite Hs.
+  apply orb_true_iff in Ht. assert (E : negb (is_normal ty) && negb (is_memory ty) = false) by (destruct Ht as [-> | ->]; [reflexivity|apply andb_false_r]).
+  rewrite E. set (dep := get_type_depth d (Z.of_N ty)).
+  destruct (Z.eqb_spec dep HWLOC_TYPE_DEPTH_UNKNOWN) as [E1|N1]; cbn [orb]; [auto|].
+  destruct (Z.eqb_spec dep HWLOC_TYPE_DEPTH_MULTIPLE) as [E2|N2]; [auto|].
+  destruct (find _ (level_objs d dep)) as [o|] eqn:F.
+  - apply find_some in F as [F1 F2]. apply andb_true_iff in F2 as [F2 F3]. auto.
+  - split; [reflexivity|]. right. right. intros o Ho. exact (find_none _ _ F o Ho).
+Qed.
